@@ -407,9 +407,12 @@ class SparseArray:
             missing_counts = counts != n_cols
             data[missing_counts] = method(data[missing_counts], self.fill_value, **kwargs)
         else:
-            data = method(
-                data,
-                reduce_super_ufunc(self.fill_value, n_cols - counts),
+            # groups that store every element need no correction (and must not get one:
+            # a non-finite fill value times zero missing elements is NaN)
+            missing_counts = counts != n_cols
+            data[missing_counts] = method(
+                data[missing_counts],
+                reduce_super_ufunc(self.fill_value, (n_cols - counts)[missing_counts]),
             ).astype(data.dtype)
             result_fill_value = reduce_super_ufunc(self.fill_value, n_cols)
 
